@@ -122,7 +122,7 @@ void run(Src &src, Case &c)
         if (s.compare(0, 7, "C05.wf|") == 0) {
             Obs ou;
             uniformlyNamed(base, ou);
-            if (ou.sig.empty()) {
+            if (ou.sig != s) {
                 s = "C05.name-dependent|" + stripId(s);
             }
         }
@@ -141,11 +141,11 @@ void run(Src &src, Case &c)
         Obs ou;
         uniformlyNamed(base, ou);
         std::string m2;
-        if (ou.sig.empty() && checkTruth(base, ou, m2) != sig) {
+        if (ou.type != "exception" && checkTruth(base, ou, m2) != sig) {
             sig = "C05.name-dependent|" + stripId(sig);
             msg += "\n(the same model with every class of connected variables given one name throughout does not show this)";
         }
-        report(c, sig, msg + "\n--- analyser model\n" + ob.dump());
+        report(c, sig, msg + "\n--- with one name per class: type " + ou.type + "\n" + ou.issues + "--- analyser model\n" + ob.dump());
         return;
     }
 
@@ -219,7 +219,7 @@ void run(Src &src, Case &c)
             uniformlyNamed(stages[culprit], ous);
             std::string dm;
             bool w = false;
-            nameDependent = oub.sig == ob.sig && difference(oub, ous, dm, w) != vsig;
+            nameDependent = oub.type != "exception" && ous.type != "exception" && difference(oub, ous, dm, w) != vsig;
         }
         std::string full;
         if (wf) {
@@ -270,7 +270,7 @@ void run(Src &src, Case &c)
             Obs ou;
             analyse(u, ou);
             c.count("analyses");
-            if (ou.sig.empty() && ((ou.type == expected && ou.errors != 0) || (ov.type != expected && ou.type != ov.type))) {
+            if (ou.type != "exception" && ((ou.type == expected && ou.errors != 0) || (ov.type != expected && ou.type != ov.type))) {
                 vsig = "C05.name-dependent|" + stripId(vsig);
             }
         }
